@@ -420,6 +420,29 @@ func TestWrappers(t *testing.T) {
 			case "other-key":
 				pk = xk[rapid.IntRange(0, len(xk)-1).Draw(rt, "key2")].pk
 			}
+			if rapid.IntRange(0, 3).Draw(rt, "tall") == 0 && validity != "other-key" {
+				// a triple that satisfies the verification equation for a drawn height 4..30 (built without a tree)
+				h := 2 * rapid.IntRange(2, 15).Draw(rt, "h/2")
+				hf := rapid.IntRange(0, 2).Draw(rt, "fabHash")
+				fi := uint32(rapid.Uint64Range(0, uint64(1)<<uint(h)-1).Draw(rt, "fabIdx"))
+				mat := pu.DetBytes(rapid.Uint64().Draw(rt, "fabMat"), 96+32*h)
+				sibs := make([][]byte, h)
+				for l := range sibs {
+					sibs[l] = mat[96+32*l : 128+32*l]
+				}
+				signed := c.Msg
+				if validity == "other-message" {
+					signed = append([]byte("signed:"), c.Msg...)
+				}
+				fsig, root := xmssref.Fabricate(xmssref.Hash(hf), h, fi, signed, mat[0:32], mat[32:64], mat[64:96], sibs, -1)
+				sig = fsig
+				pk = append(append([]byte{byte(hf), byte(h / 2), 0}, root...), mat[32:64]...)
+				if validity == "sig-bit-flipped" {
+					bit := rapid.IntRange(0, len(sig)*8-1).Draw(rt, "fabBit")
+					sig[bit/8] ^= 1 << uint(bit%8)
+				}
+				validity += fmt.Sprintf("+height-%d", h)
+			}
 			if rapid.IntRange(0, 5).Draw(rt, "uninterpreted") == 0 {
 				// descriptor bits the core verifier does not interpret (address-format nibble, reserved byte):
 				// whatever the core answers for such a key, the wrapper must answer the same
